@@ -62,7 +62,7 @@ def run(ctx):
                         at = want if side.getvalue()[want:want + 1] == b"A" else -1
                     camp.sh.session("C09.alt-stream", [i1], x={"before": start, "after": side.tell(), "at": at, "want": want})
         # spec -> code: every session TLC explores on the look-ahead part of the model's universe (design-level clauses checked there)
-        progs, kw, sessions, _ = speccode.explore(ctx, focus="C09", part=speccode.part_of(ctx, 12 if quick else 8))
+        progs, kw, sessions, _ = speccode.explore(ctx, focus="C09", part=speccode.part_of(ctx, 20 if quick else 12))
         speccode.drive(camp, progs, kw, sessions)
         vs = camp.validate()
         campaign.judge(ctx, camp, vs, clauses=("C09.alt-stream",), conformance=lambda v, m: campaign.kind_of(v) in KINDS and
